@@ -203,4 +203,39 @@ THEOREM SortThenSortBack ==
 <1>8. [t1 EXCEPT !.obs = t.obs, !.mat = t.mat, !.omd = t.omd] = t
   BY <1>1 DEF TableT
 <1> QED BY <1>7, <1>8
+
+\* ---- content equality (C16): SeqSetP, MdSameP, EqContentP restate SeqSet, MdSame, EqContent of BiomProps2
+SeqSetP(s) == {s[i] : i \in 1..Len(s)}
+MdSameP(a, b) == /\ a.has = b.has /\ Len(a.rows) = Len(b.rows)
+                 /\ \A k \in 1..Len(a.rows) : k <= Len(b.rows) => SeqSetP(a.rows[k]) = SeqSetP(b.rows[k])
+EqContentP(a, b) ==
+  /\ a.type = b.type /\ a.obs = b.obs /\ a.samp = b.samp /\ a.mat = b.mat
+  /\ MdSameP(a.omd, b.omd) /\ MdSameP(a.smd, b.smd)
+
+\* content equality (what C16 says == must decide) is an equivalence relation, on tables of any size
+THEOREM EqContentIsAnEquivalence ==
+  ASSUME NEW R, NEW a, NEW b, NEW c,
+         a.omd.rows \in Seq(R), a.smd.rows \in Seq(R), b.omd.rows \in Seq(R), b.smd.rows \in Seq(R),
+         c.omd.rows \in Seq(R), c.smd.rows \in Seq(R)
+  PROVE  /\ EqContentP(a, a)
+         /\ EqContentP(a, b) => EqContentP(b, a)
+         /\ (EqContentP(a, b) /\ EqContentP(b, c)) => EqContentP(a, c)
+<1>1. ASSUME NEW x, NEW y, NEW z, x.rows \in Seq(R), y.rows \in Seq(R), z.rows \in Seq(R)
+      PROVE  /\ MdSameP(x, x)
+             /\ MdSameP(x, y) => MdSameP(y, x)
+             /\ (MdSameP(x, y) /\ MdSameP(y, z)) => MdSameP(x, z)
+  <2>1. MdSameP(x, x)
+    BY <1>1 DEF MdSameP
+  <2>2. MdSameP(x, y) => MdSameP(y, x)
+    BY <1>1 DEF MdSameP
+  <2>3. (MdSameP(x, y) /\ MdSameP(y, z)) => MdSameP(x, z)
+    BY <1>1 DEF MdSameP
+  <2> QED BY <2>1, <2>2, <2>3
+<1>2. EqContentP(a, a)
+  BY <1>1 DEF EqContentP
+<1>3. EqContentP(a, b) => EqContentP(b, a)
+  BY <1>1 DEF EqContentP
+<1>4. (EqContentP(a, b) /\ EqContentP(b, c)) => EqContentP(a, c)
+  BY <1>1 DEF EqContentP
+<1> QED BY <1>2, <1>3, <1>4
 =============================================================================
